@@ -156,6 +156,80 @@ def merge_contributions(ctx, facts, mb, vecp, cfg):
                   sample={"kind": v, "contributes": shown})
 
 
+def missing_key(ctx, facts, unit, mf, cfg):
+    """K3.missing-key on path summaries + case normal form: in every body of the membership equality that looks a key
+    up in the other object (`Map::get`), every way the code can go on when the lookup answers None — an `unwrap_or` /
+    `map_or` default, an `is_some_and`, a `match` arm, a `let … else`, an early `return` out of a loop — must yield
+    the constant false.  A None case that goes round the loop again (the key is skipped) or yields true is a violation;
+    a None case whose value is not a constant is not read."""
+    from . import pathsum, optnorm
+
+    def is_get(e):
+        e = strip_refs(e)
+        return e[0] == "call" and e[1] is not None and e[1]["path"].startswith("serde_json::Map::<") and e[1]["path"].endswith("::get")
+
+    def known(pe, adt):
+        if adt == VALUE and strip_refs(pe) in (("arg", 1), ("arg", 2)):
+            return "Object"
+        return None
+    lookups = 0
+    decided = 0
+    for b in unit.bodies:
+        if not any(is_get(("call", callee_of(t), [], bi)) for (bi, t) in b.calls() if callee_of(t)):
+            continue
+        lookups += 1
+        w = pathsum.summarize(b, known=known if b.key == mf.key else None, max_paths=3000)
+        if w.overflow or not w.paths:
+            ctx.unread("K3.missing-key", "a key missing from the other object makes the objects different (%s, %s)" % (b.key, cfg), "too many paths", where=b.where(), fn=b.key)
+            continue
+        seen = set()
+        for p in w.paths:
+            if p.truncated or p.result is None:
+                subs = [((), None)]
+            else:
+                subs = optnorm.cases_expr(facts, p.result) or [((), ("unknown",))]
+            for c2, val in subs:
+                conds = dict(p.atoms)
+                feasible = True
+                for k_, v_ in c2:
+                    if k_ in conds and conds[k_] != v_:
+                        feasible = False
+                    conds[k_] = v_
+                if not feasible:
+                    continue
+                for k_, v_ in conds.items():
+                    if k_[0] != "variant" or v_ != "None":
+                        continue
+                    src = w.exprs.get(k_)
+                    if src is None:
+                        src = optnorm.SRC_EXPRS.get(k_)
+                    if src is None or not is_get(src):
+                        continue
+                    key = "a key missing from the other object makes the objects different (%s, %s)" % (b.key, cfg)
+                    if val is None:
+                        out = "goes on with the next key"
+                    else:
+                        x = strip_refs(val)
+                        out = const_value(x[1]) if x[0] == "const" else None
+                    if (key, str(out)) in seen:
+                        continue
+                    seen.add((key, str(out)))
+                    if out is False:
+                        decided += 1
+                        ctx.ok("K3.missing-key", key, nontrivial=True)
+                    elif out is None:
+                        ctx.unread("K3.missing-key", key, "for a key that the other object lacks the membership equality yields %s" % show_expr(val)[:80], where=b.where(), fn=b.key)
+                    else:
+                        ctx.fail("K3.missing-key", key, "for a key that the other object lacks the membership equality %s: objects with different key sets would be the same element" % ("yields %s" % out if val is not None else out), where=b.where(), fn=b.key)
+                        decided += 1
+    if lookups == 0:
+        ctx.fail("K3.missing-key-site", "the key-wise comparison handles a missing key explicitly (%s)" % cfg, "no Map::get in the membership equality: objects are not compared key by key", where=mf.where(), fn=mf.key)
+    elif decided == 0:
+        ctx.unread("K3.missing-key-site", "the key-wise comparison handles a missing key explicitly (%s)" % cfg, "no case of the Map::get lookup answering None was read", where=mf.where(), fn=mf.key)
+    else:
+        ctx.ok("K3.missing-key-site", "the key-wise comparison handles a missing key explicitly (%s)" % cfg)
+
+
 def run(ctx):
     ctx.explanation = __doc__
     ctx.rule = "instances = merge: pass/shape facts + 6 kinds; in: 6 haystack kinds × needle kinds + unit taint; membership equality: 36 kind pairs; non-trivial = specialisation / def-use"
@@ -306,17 +380,6 @@ def run(ctx):
                           sample={"pair": "%s,%s" % (a, b), "outcome": o.kind} if a == b else None)
             # Object×Object is key-wise (Map::get), Array×Array element-wise with equal lengths
             mu2 = Unit(roles, mf.key)
-            nmk = 0
-            for sx in mu2.calls_path(r"^std::option::Option::<T>::(unwrap_or|map_or|is_some_and)$"):
-                recv = sx.body.xtrace(sx.term["args"][0])
-                if not expr_mentions(recv, lambda y: y[0] == "call" and y[1] and y[1]["path"].startswith("serde_json::Map::<") and y[1]["path"].endswith("::get")):
-                    continue
-                nmk += 1
-                if callee_path(sx.term).endswith("is_some_and"):
-                    continue
-                dflt = strip_refs(sx.body.xtrace(sx.term["args"][1]))
-                ctx.check(dflt[0] == "const" and const_value(dflt[1]) is False, "K3.missing-key", "a key missing from the other object makes the objects different (%s, %s)" % (sx.where(), cfg),
-                          "for a key that the other object lacks the membership equality yields %s: objects with different key sets would be the same element" % show_expr(dflt), where=sx.where(), fn=sx.body.key, nontrivial=True)
-            ctx.check(nmk >= 1, "K3.missing-key-site", "the key-wise comparison handles a missing key explicitly (%s)" % cfg, "no Option fallback on Map::get in the membership equality", where=mf.where(), fn=mf.key)
+            missing_key(ctx, facts, mu2, mf, cfg)
             paths = [callee_path(s.term) for s in mu2.calls()]
             ctx.check(any(p.startswith("serde_json::Map::<") and p.endswith("::get") for p in paths) and sum(1 for p in paths if p.endswith("::len")) >= 4, "K3.structure", "objects compared key-wise via Map::get, lengths compared (%s)" % cfg, "membership equality calls: %s" % sorted(set(p.rsplit("::", 1)[1] for p in paths)), where=mf.where(), fn=mf.key)
